@@ -47,6 +47,7 @@ type Case6 struct {
 	Ops   []Op6    `json:"ops"`
 	Em    *Case    `json:"em,omitempty"`
 	C3    *Case3   `json:"c3,omitempty"`
+	Num   *Num7    `json:"num,omitempty"`
 	Tag   string   `json:"tag"`
 }
 
@@ -160,6 +161,8 @@ func execute6(c *Case6) {
 		execute(c.Em)
 	case "reuse3":
 		execute3(c.C3)
+	case "num":
+		executeNum7(c.Num)
 	}
 }
 
@@ -240,6 +243,9 @@ func oracleSeq(c *Case6) string {
 			if fo.Out != o.Out || !sameFS(fo.Res, o.Res) {
 				return fmt.Sprintf("call %d (GetEstimate after Initialize + observations) on the re-used estimator returns %s %v, a new estimator fed the same observations returns %s %v",
 					k, o.Out, ffs(o.Res), fo.Out, ffs(fo.Res))
+			}
+			if m := oracleBatch7(c, lastInit, k); m != "" {
+				return m
 			}
 			if o.Out == "ok" {
 				lastInit = -1 // accumulators consumed
@@ -412,6 +418,8 @@ func oracle6(c *Case6) string {
 	case "reuse3":
 		m, _ := oracleReuse3(c.C3)
 		return m
+	case "num":
+		return oracleNum7(c.Num)
 	}
 	return ""
 }
@@ -427,6 +435,8 @@ func (c *Case6) keys(t tab) {
 		}
 	case "reuse3":
 		c.C3.keys(t)
+	case "num":
+		c.Num.keys(t)
 	case "seq":
 		for _, o := range c.Ops {
 			if !o.HasG {
@@ -465,6 +475,8 @@ func (c *Case6) coq() string {
 		return "C6EmFinal" + strings.TrimPrefix(e.coq(), "CEm") + fmt.Sprintf(" (%s, %s)", FList(ffs(e.Final.Lw)), List(rows))
 	case "reuse3":
 		return "C6R3 (" + c.C3.coq() + ")"
+	case "num":
+		return c.Num.coq()
 	}
 	cat := c.Fam == 3
 	num := func(x FS) string {
@@ -884,6 +896,8 @@ func nontrivial6(c *Case6) bool {
 		return n >= 2
 	case "emfinal":
 		return !c.Em.Err && len(c.Em.Trace) >= 3 && c.Em.K >= 2
+	case "num": // at least two evaluations of the objective, weighted data
+		return len(c.Num.Calls) >= 2 && c.Num.HasG
 	}
 	return !c.C3.Err && len(c.C3.Pre) > 0
 }
@@ -899,6 +913,13 @@ func round6(o Opts) {
 	}
 	for i := 0; i < o.N; i++ {
 		cs = append(cs, gen6(r))
+	}
+	r7 := NewRng(o.Seed*1000003 + 7)
+	for i := 0; i < (o.N+1)/2; i++ {
+		cs = append(cs, genBatch7(r7)) // round 7: mixed unweighted / weighted batches
+	}
+	for i := 0; i < (o.N+1)/2; i++ {
+		cs = append(cs, genNum7(r7)) // round 7: the objective of NumericEstimator
 	}
 	hist := map[string]int{}
 	nontriv := map[string]bool{}
@@ -1013,6 +1034,23 @@ func shrink6(c *Case6) *Case6 {
 				t.Em.Xs = append(t.Em.Xs[:i], t.Em.Xs[i+1:]...)
 				cands = append(cands, t)
 			}
+		case "num":
+			for i := 0; i < len(cur.Num.Xs) && len(cur.Num.Xs) > 1; i++ {
+				t := clone6(cur)
+				t.Num.Xs = append(t.Num.Xs[:i], t.Num.Xs[i+1:]...)
+				if t.Num.HasG {
+					t.Num.G = append(t.Num.G[:i], t.Num.G[i+1:]...)
+				}
+				keep := false // a witness keeps an observation inside the support that carries weight
+				for k, x := range ffs(t.Num.Xs) {
+					if !t.Num.outOfSupport(x) && (!t.Num.HasG || !math.IsInf(t.Num.G[k].f(), -1)) {
+						keep = true
+					}
+				}
+				if keep {
+					cands = append(cands, t)
+				}
+			}
 		case "reuse3":
 			for i := range cur.C3.Pre {
 				t := clone6(cur)
@@ -1063,6 +1101,12 @@ func hunt6(o Opts, handed []*Case6, res map[string]interface{}) {
 	r := NewRng(o.Seed*1000003 + 66)
 	for i := 0; i < o.N; i++ {
 		if try(gen6(r)) {
+			return
+		}
+		if i%2 == 0 && try(genBatch7(r)) {
+			return
+		}
+		if i%4 == 1 && try(genNum7(r)) {
 			return
 		}
 	}
